@@ -4,6 +4,7 @@
 -/
 import RsjModel.Parser
 import RsjProofs.ParserSpans3
+import RsjProofs.ParserRun10
 namespace Rsj.Parser
 
 /-! ## The precedence table
@@ -145,6 +146,93 @@ theorem C15_error_points_at_token {toks : List Token} {sp : Span} {ex : List Exp
 example : parse [tk (.ident "61") 0 1, tk (.simple .Plus) 2 3, tk .eof 3 3] =
     .expected ⟨3, 3⟩ [.expr] .eof := by rfl
 
+/-! ## Print / re-parse
+
+`printMin` prints with the parentheses the grammar needs, `printFull` parenthesises every
+subexpression (`RsjModel/Printer.lean`); `Expr.erase` forgets spans and `Paren` nodes.  Token
+spans play no role: the statements hold for *every* token list with the printed kinds. -/
+
+/-- **Full statement (not yet proved in general).** Every tree the parser can produce, printed with
+    minimal parentheses, parses back to the same tree. -/
+def C15_print_parse_full : Prop :=
+  ∀ (toks0 : List Token) (e : Expr), parse toks0 = .ok e →
+    ∀ toks : List Token, toks.map (·.kind) = printMin e ++ [.eof] →
+      ∃ e', parse toks = .ok e' ∧ e'.erase = e.erase
+
+/-- **Full statement (not yet proved in general).** … and so does its fully parenthesised form:
+    a text means the same as its fully parenthesised form. -/
+def C15_print_full_parse_full : Prop :=
+  ∀ (toks0 : List Token) (e : Expr), parse toks0 = .ok e →
+    ∀ toks : List Token, toks.map (·.kind) = printFull e ++ [.eof] →
+      ∃ e', parse toks = .ok e' ∧ e'.erase = e.erase
+
+/-- **C15 print_parse (operator fragment).** Proved for every tree built from atoms (`null`,
+    `true`, `false`, `self`, `$`, strings, text blocks, numbers, identifiers), parentheses, the
+    4 unary and 19 binary operators, field access `e.f`, indexing `e[i]`, `e in super`, `super.f`
+    and `super[i]` (`Frag`), nested arbitrarily: the minimal printing parses back to the tree.
+    Missing for the full statement: the other postfix forms (slices, calls, object extension),
+    the prefix forms that extend to the right (`local`, `if`, `function`, `assert`, `import*`,
+    `error`), arrays, objects and comprehensions (covered by the correspondence check only). -/
+theorem C15_print_parse_partial {e : Expr} (h : Frag e) (toks : List Token)
+    (hk : toks.map (·.kind) = printMin e ++ [.eof]) :
+    ∃ e', parse toks = .ok e' ∧ e'.erase = e.erase :=
+  parse_printMin_frag h toks hk
+
+/-- **C15 print_full_parse (operator fragment).** The fully parenthesised printing parses back to
+    the same tree: a text and its fully parenthesised form mean the same. -/
+theorem C15_print_full_parse_partial {e : Expr} (h : Frag e) (toks : List Token)
+    (hk : toks.map (·.kind) = printFull e ++ [.eof]) :
+    ∃ e', parse toks = .ok e' ∧ e'.erase = e.erase := by
+  rw [printFull_eq h] at hk
+  obtain ⟨e', h1, h2⟩ := parse_printMin_frag (fullParen_frag h) toks hk
+  exact ⟨e', h1, by rw [h2, fullParen_erase h]⟩
+
+/-- minimal and full printing of a fragment tree parse to the same tree -/
+theorem C15_full_parens_same_tree {e : Expr} (h : Frag e) (toks1 toks2 : List Token)
+    (h1 : toks1.map (·.kind) = printMin e ++ [.eof]) (h2 : toks2.map (·.kind) = printFull e ++ [.eof]) :
+    ∃ e1 e2, parse toks1 = .ok e1 ∧ parse toks2 = .ok e2 ∧ e1.erase = e2.erase := by
+  obtain ⟨e1, p1, q1⟩ := C15_print_parse_partial h toks1 h1
+  obtain ⟨e2, p2, q2⟩ := C15_print_full_parse_partial h toks2 h2
+  exact ⟨e1, e2, p1, p2, by rw [q1, q2]⟩
+
+/-- **C15 binary_left_assoc.** `a op1 b op2 c` (atoms `a b c`, any two of the 19 binary
+    operators) groups to the left, `(a op1 b) op2 c`, exactly when `op2` does not bind tighter
+    than `op1` — in particular for two operators of the same level — and as `a op1 (b op2 c)`
+    otherwise. -/
+theorem C15_binary_left_assoc {a b c : Expr} {ta tb tc : TokKind}
+    (ha : AtomTok a ta) (hb : AtomTok b tb) (hc : AtomTok c tc) (op1 op2 : BinaryOp) (toks : List Token)
+    (hk : toks.map (·.kind) = [ta, sim op1.tok, tb, sim op2.tok, tc, .eof]) :
+    ∃ e', parse toks = .ok e' ∧
+      e'.erase = (if op2.prec ≤ op1.prec then Expr.binary (.binary a op1 b .zero) op2 c .zero
+                  else Expr.binary a op1 (.binary b op2 c .zero) .zero).erase := by
+  have fa := atom_frag ha
+  have fb := atom_frag hb
+  have fc := atom_frag hc
+  split
+  · next hle =>
+    refine parse_printMin_frag (.binary op2 .zero (.binary op1 .zero fa fb) fc) toks ?_
+    rw [hk]
+    show _ = P _ 0 ++ _
+    rw [P_binary_bare (.binary op1 .zero fa fb) op2 .zero (by omega),
+      P_binary_bare fa op1 .zero (by omega), atom_P ha, atom_P hb, atom_P hc]
+    rfl
+  · next hgt =>
+    refine parse_printMin_frag (.binary op1 .zero fa (.binary op2 .zero fb fc)) toks ?_
+    rw [hk]
+    show _ = P _ 0 ++ _
+    rw [P_binary_bare fa op1 .zero (by omega), P_binary_bare fb op2 .zero (by omega),
+      atom_P ha, atom_P hb, atom_P hc]
+    rfl
+
+/-- non-vacuity: `-a.f[b] * (c + d) in super` is in the fragment; its minimal printing needs
+    exactly the one pair of parentheses that is in the tree -/
+example : Frag (.inSuper (.binary (.unary .Minus (.index (.field (.ident ⟨"61", .zero⟩ .zero) ⟨"66", .zero⟩ .zero)
+      (.ident ⟨"62", .zero⟩ .zero) .zero) .zero) .Mul
+      (.paren (.binary (.ident ⟨"63", .zero⟩ .zero) .Add (.ident ⟨"64", .zero⟩ .zero) .zero) .zero) .zero)
+      .zero .zero) :=
+  .inSuper _ _ (.binary _ _ (.unary _ _ (.index _ (.field _ _ (.ident _ _)) (.ident _ _)))
+    (.paren _ (.binary _ _ (.ident _ _) (.ident _ _))))
+
 end Rsj.Parser
 
 open Rsj.Parser in
@@ -155,3 +243,11 @@ open Rsj.Parser in
 #print axioms C15_spans_binary_inside
 open Rsj.Parser in
 #print axioms C15_error_points_at_token
+open Rsj.Parser in
+#print axioms C15_print_parse_partial
+open Rsj.Parser in
+#print axioms C15_print_full_parse_partial
+open Rsj.Parser in
+#print axioms C15_full_parens_same_tree
+open Rsj.Parser in
+#print axioms C15_binary_left_assoc
